@@ -50,9 +50,13 @@ if os.path.exists(extra):
         a, b = k.split("-")
         M[(a, int(b))] = tuple(v)
 rows = []
-for (pid, n), (what, needs, caught, missed) in sorted(M.items()):
+for (pid, n), val in sorted(M.items()):
+    what, needs, caught, missed = val[:4]
+    fprops = list(val[4]) if len(val) > 4 else None        # file-targeted round: the properties the change breaks
     # round 1: <id>-1/-2 (/tmp/seed), round 2: -3/-4 (/tmp/seed2), round 3: -5/-6 (/tmp/seed4), round 4: -7/-8 (/tmp/seed5)
     root, k = ["/tmp/seed", "/tmp/seed2", "/tmp/seed4", "/tmp/seed5", "/tmp/seed6"][(n - 1) // 2], (n - 1) % 2 + 1
+    if pid.startswith("F"):                                 # round 6: targets are files, /tmp/seed7/Fxx
+        root, k = "/tmp/seed7", n
     src = f"{root}/{pid}/_out"
     d = f"/verif/seeded/{pid}-{n}"
     resf = f"{root}/results/{pid}_{k}.json"
@@ -79,6 +83,10 @@ for (pid, n), (what, needs, caught, missed) in sorted(M.items()):
                 "checks_run": "tools/run_seeded.py [--scratch] seeded/<id>/patch.diff <checks> (quick tier); /repo restored afterwards"}
     meta.update({"change": what, "needs_to_manifest": needs, "caught_by": caught, "initially_missed": bool(missed),
                  "strengthening": missed})
+    if fprops:
+        meta["property"] = fprops
+        meta["author"] = ("independent sub-agent given a set of source files, the texts of all twenty properties and a scratch "
+                          "worktree of /repo")
     json.dump(meta, open(f"{d}/meta.json", "w"), indent=1)
     rows.append((f"{pid}-{n}", what, needs, "; ".join(caught), missed or "—"))
 open("/verif/seeded/README.md", "w").write(
